@@ -337,6 +337,126 @@ fn run(front: std::net::SocketAddr, s: &Scn) -> Res {
     Res { name: s.name, summary, viols }
 }
 
+/// Interleavings: three requests in flight on ONE connection (streams 1, 3 and 5, POSTs to the h2c
+/// backend waiting for their bodies), then the scenario's bytes.  A stream error must hit only its
+/// stream: the siblings complete with 200 and the connection keeps answering; a connection error
+/// names a last stream id that covers every stream sozu took (RFC 9113 6.8) and releases the connection.
+fn sibling_scenarios() -> Vec<Scn> {
+    let mut v = vec![];
+    let mut add = |name, bytes, want| v.push(Scn { name, st: St::Open, bytes, want, prefix: "/h2" });
+    add("sib_wu_stream_zero", wu(5, 0), Want::Stream(5, vec![PROTOCOL]));
+    add("sib_wu_stream_overflow", wu(5, 0x7fff_ffff), Want::Stream(5, vec![FLOW]));
+    add("sib_rst_then_data", [frame(T_RST, 0, 5, &8u32.to_be_bytes()), frame(T_DATA, 1, 5, b"late")].concat(), Want::Either(vec![STREAM_CLOSED]));
+    add("sib_data_after_end_stream", [frame(T_DATA, 1, 5, b"x"), frame(T_DATA, 0, 5, b"y")].concat(), Want::Either(vec![STREAM_CLOSED]));
+    add("sib_headers_again", frame(T_HEADERS, 4, 5, &request_block(false, "/")), Want::Either(vec![PROTOCOL]));
+    {
+        let mut b = frame(T_HEADERS, 4, 7, &request_block(true, "/h2/fourth"));
+        b.extend(frame(T_HEADERS, 4, 9, &request_block(true, "/h2/over")));
+        b.extend(frame(T_DATA, 0, 9, b"body-of-the-refused-stream"));
+        add("sib_refused_over_limit", b, Want::Stream(9, vec![REFUSED]));
+    }
+    add(
+        "sib_legal_mix",
+        [frame(T_DATA, 0, 1, b"part"), wu(3, 10), frame(T_PRIORITY, 0, 5, &[0, 0, 0, 0, 16]), frame(0x42, 0xff, 5, b"whatever"), frame(T_DATA, 0, 3, b"part")].concat(),
+        Want::Alive,
+    );
+    add("sib_data_pad_too_long", frame(T_DATA, 8, 5, &[9, b'a', b'b']), Want::Conn(vec![PROTOCOL], false));
+    add("sib_frame_inside_header_block", [frame(T_HEADERS, 1, 7, &[0x82]), frame(T_DATA, 0, 1, b"x")].concat(), Want::Conn(vec![PROTOCOL], false));
+    add("sib_oversized_frame", raw_frame(16385, T_DATA, 0, 5, &[]), Want::Conn(vec![FRAME_SIZE], false));
+    add("sib_empty_data_flood", many(9, frame(T_DATA, 0, 5, &[])), Want::Conn(vec![CALM], false));
+    add("sib_wu_conn_overflow", wu(0, 0x7fff_ffff), Want::Conn(vec![FLOW], false));
+    v
+}
+
+fn run_siblings(front: std::net::SocketAddr, s: &Scn) -> Res {
+    let mut viols: Vec<(String, String)> = vec![];
+    let Some(mut p) = Peer::connect(front) else {
+        return Res { name: s.name, summary: "connect-failed".into(), viols: vec![("bb-infra".into(), format!("{}: could not connect", s.name))] };
+    };
+    if !p.handshake(&[]) {
+        return Res { name: s.name, summary: "handshake-failed".into(), viols: vec![("bb-infra".into(), format!("{}: H2 handshake failed", s.name))] };
+    }
+    let mut b = vec![];
+    for (sid, path) in [(1u32, "/h2/sib-a"), (3, "/h2/sib-b"), (5, "/h2/victim")] {
+        b.extend(frame(T_HEADERS, 4, sid, &request_block(true, path)));
+    }
+    p.send(&b);
+    // the three requests reach the backend connection before the scenario's bytes
+    let mut got = p.read_until(Duration::from_millis(200), |_| false);
+    p.send(&s.bytes);
+    let is_err = |x: &Fr| x.t == T_GOAWAY || (x.t == T_RST && x.code() != Some(NO_ERROR));
+    let expect_err = !matches!(s.want, Want::Alive);
+    got.extend(p.read_until(Duration::from_millis(if expect_err { 1500 } else { 300 }), |f| f.iter().any(is_err)));
+    let mut goaway = got.iter().find(|x| x.t == T_GOAWAY).map(|x| (x.code().unwrap_or(999), x.payload.get(..4).map_or(0, |b| u32::from_be_bytes([b[0], b[1], b[2], b[3]]) & 0x7fff_ffff)));
+    let mut completed: Vec<u32> = vec![];
+    let mut ping_ok = None;
+    if goaway.is_none() && !p.closed {
+        // the siblings complete
+        p.send(&[frame(T_DATA, 1, 1, b"end-a"), frame(T_DATA, 1, 3, b"end-b"), frame(T_PING, 0, 0, b"siblings")].concat());
+        let done = |f: &[Fr]| {
+            f.iter().any(|x| x.t == T_GOAWAY)
+                || ([1u32, 3].iter().all(|sid| f.iter().any(|x| x.sid == *sid && x.t == T_HEADERS)) && f.iter().any(|x| x.t == T_PING && x.flags & 1 == 1))
+        };
+        let more = p.read_until(Duration::from_secs(4), done);
+        ping_ok = Some(more.iter().any(|x| x.t == T_PING && x.flags & 1 == 1 && x.payload == b"siblings"));
+        got.extend(more);
+        goaway = got.iter().find(|x| x.t == T_GOAWAY).map(|x| (x.code().unwrap_or(999), x.payload.get(..4).map_or(0, |b| u32::from_be_bytes([b[0], b[1], b[2], b[3]]) & 0x7fff_ffff)));
+        for sid in [1u32, 3] {
+            if got.iter().any(|x| x.sid == sid && x.t == T_HEADERS && x.payload.first() == Some(&0x88)) {
+                completed.push(sid);
+            }
+        }
+    }
+    let rsts: Vec<(u32, u32)> = got.iter().filter(|x| x.t == T_RST).map(|x| (x.sid, x.code().unwrap_or(999))).collect();
+    let released = if goaway.is_some() { p.wait_closed(Duration::from_millis(2500)) } else { p.closed };
+    let summary = format!("goaway={goaway:?} rst={rsts:?} siblings_completed={completed:?} ping={ping_ok:?} released={released}");
+    let mut bad = |class: &str, text: String| viols.push((class.to_string(), format!("{}: {} [{}]", s.name, text, summary)));
+    let allowed: Vec<u32> = match &s.want {
+        Want::Conn(c, _) | Want::Either(c) => c.clone(),
+        Want::Stream(_, c) => c.clone(),
+        Want::Alive => vec![],
+    };
+    match goaway {
+        Some((code, last)) => {
+            if !allowed.contains(&code) {
+                bad("bb-spurious-error", format!("GOAWAY code {code} with three requests in flight, allowed here: {allowed:?}"));
+            }
+            if code != NO_ERROR && last < 5 {
+                bad("bb-goaway-last-stream", format!("GOAWAY names last stream {last}, but streams 1, 3 and 5 had been taken (a client would send them again)"));
+            }
+            if !released {
+                bad("bb-not-released", "the connection was not released after GOAWAY".into());
+            }
+        }
+        None => {
+            if matches!(s.want, Want::Conn(..)) {
+                bad("bb-no-error", format!("a connection error {allowed:?} was due, none was signalled"));
+            }
+            if let Want::Stream(sid, codes) = &s.want {
+                if !rsts.iter().any(|(s1, c)| s1 == sid && codes.contains(c)) {
+                    bad("bb-wrong-error", format!("RST_STREAM({sid}) with one of {codes:?} was due"));
+                }
+            }
+            if let Want::Either(codes) = &s.want {
+                if !rsts.iter().any(|(_, c)| codes.contains(c)) {
+                    bad("bb-wrong-error", format!("RST_STREAM with one of {codes:?} was due"));
+                }
+            }
+            // whatever happened to the victim, the siblings are untouched
+            if let Some((sid, c)) = rsts.iter().find(|(sid, _)| *sid == 1 || *sid == 3) {
+                bad("bb-sibling-hit", format!("a sibling stream was reset: RST_STREAM({sid}) code {c}"));
+            }
+            if completed != vec![1, 3] {
+                bad("bb-sibling-lost", "a sibling request in flight on the same connection was not answered 200 after the error on another stream".into());
+            }
+            if ping_ok != Some(true) {
+                bad("bb-wedged", "no PING acknowledgement after the error on one stream".into());
+            }
+        }
+    }
+    Res { name: s.name, summary, viols }
+}
+
 /// Proxy-initiated GOAWAY: SoftStop with one idle connection and one connection holding an open stream.
 /// RFC 9113 6.8: GOAWAY(NO_ERROR) announces the shutdown; streams already open complete; new streams are
 /// refused (REFUSED_STREAM) without tearing the connection down; the connection is then released and the
@@ -457,8 +577,10 @@ fn main() {
         std::process::exit(0);
     }
     let scns: Vec<Scn> = scenarios(thorough).into_iter().filter(|s| only.as_deref().map_or(true, |o| o == s.name)).collect();
+    let sibs: Vec<Scn> = sibling_scenarios().into_iter().filter(|s| only.as_deref().map_or(true, |o| o == s.name)).collect();
     let results: Vec<Res> = std::thread::scope(|sc| {
-        let hs: Vec<_> = scns.iter().map(|s| sc.spawn(move || run(front, s))).collect();
+        let mut hs: Vec<_> = scns.iter().map(|s| sc.spawn(move || run(front, s))).collect();
+        hs.extend(sibs.iter().map(|s| sc.spawn(move || run_siblings(front, s))));
         hs.into_iter().map(|h| h.join().unwrap_or(Res { name: "?", summary: "scenario thread panicked".into(), viols: vec![("bb-infra".into(), "scenario thread panicked".into())] })).collect()
     });
     for r in &results {
